@@ -68,8 +68,26 @@ def compile_src(src, rmeta, deps):
     return r.returncode, codes, "\n".join(text)
 
 
+def _target_tree(cfg="E"):
+    try:
+        with open(os.path.join(build.CACHE, "target-" + cfg, ".verif_tree")) as fh:
+            return fh.read().strip()
+    except OSError:
+        return None
+
+
 def run(ctx, rule, names):
-    rmeta, deps = _rmeta(ctx.facts("E").dir, "E")
+    facts = ctx.facts("E")
+    # the facts may come from the cache while the shared target directory has since been used for another tree (a scratch
+    # copy in the thorough tier, a parallel run): the witnesses must link against THIS tree's metadata
+    if _target_tree("E") != facts.info.get("tree_hash"):
+        build.build("E", force=True, repo=ctx.repo)
+    with build.Lock("build-E"):
+        return _run_locked(ctx, rule, names, facts)
+
+
+def _run_locked(ctx, rule, names, facts):
+    rmeta, deps = _rmeta(facts.dir, "E")
     if rmeta is None:
         ctx.fail(rule, "witness", "-", "fastrace metadata from the facts build is available", "no libfastrace-*.rmeta under %s" % deps, extra="rmeta")
         return
